@@ -295,12 +295,13 @@ def pureStep (toks : List String) : String :=
     | _, _ => "bad-op"
   | ["rec.read", dir, lens, segs] =>
     -- lens: plaintext lengths of the records the authentic peer wrote in direction dir
-    -- segs: h<use>:<from>:<to> | o<use>:<from>:<to> | j<n>, comma separated
+    -- segs: h<use>:<from>:<to> | o<use>:<from>:<to> | j<n> | p (read timeout here), comma separated
     match dir.toNat?, (if lens = "none" then some [] else (lens.splitOn ",").mapM String.toNat?) with
     | some dir, some ls =>
       let recs : List Bytes := ls.map fun n => List.replicate n 0
       let parseSeg (t : String) : Option (List Lnc.Mailbox.Record.SByte) :=
-        if t.startsWith "j" then (t.drop 1).toString.toNat?.map fun n => List.replicate n .junk
+        if t = "p" then some [.pause]
+        else if t.startsWith "j" then (t.drop 1).toString.toNat?.map fun n => List.replicate n .junk
         else
           let d := if t.startsWith "h" then some dir else if t.startsWith "o" then some (1 - dir) else none
           match d, ((t.drop 1).toString.splitOn ":").mapM String.toNat? with
